@@ -1,4 +1,10 @@
 import FFVerif.Props.C19
+import FFVerif.Pins.pinFID
+import FFVerif.Pins.pinSE
+import FFVerif.Pins.pinPDD
+import FFVerif.Pins.pinCPMG
+import FFVerif.Pins.pinCDD
+import FFVerif.Pins.pinUDD
 #print axioms FFVerif.C19.fid_closed_form
 #print axioms FFVerif.C19.se_closed_form
 #print axioms FFVerif.C19.pdd_model_eq
@@ -12,3 +18,9 @@ import FFVerif.Props.C19
 #print axioms FFVerif.C19.cddY_two
 #print axioms FFVerif.C19.cddY_succ
 #print axioms FFVerif.C19.cdd_closed_form
+#print axioms FFVerif.Pins.pinFID
+#print axioms FFVerif.Pins.pinSE
+#print axioms FFVerif.Pins.pinPDD
+#print axioms FFVerif.Pins.pinCPMG
+#print axioms FFVerif.Pins.pinCDD
+#print axioms FFVerif.Pins.pinUDD
